@@ -513,7 +513,9 @@ class ElectionState(_SynchronizedState):
                 if self.state_modes.is_master():
                     return SupvisorsStates.DISTRIBUTION
                 # the Slave waits for the Master to transition
-                if self.state_modes.master_state == SupvisorsStates.DISTRIBUTION:
+                # NOTE: the Master may already be past DISTRIBUTION when the Slave acknowledges it
+                if self.state_modes.master_state in [SupvisorsStates.DISTRIBUTION, SupvisorsStates.OPERATION,
+                                                     SupvisorsStates.CONCILIATION]:
                     return SupvisorsStates.DISTRIBUTION
             # re-evaluate the context to possibly get a more relevant Master
             self.state_modes.select_master()
